@@ -75,7 +75,7 @@ def run(ctx) -> None:
   ctx.rule('R5', 'no mutation of a message after it was copied into its container', 1)
   ctx.rule('R8', 'conditional children are never merged by name during conversion', 1)
   ctx.rule('R12', 'converters that emit one message per element of a collection emit every element (no element is skipped on its '
-           'field values)', 5)
+           'field values)', 1)
   ctx.rule('R13', 'the Pythia endpoint is written with insert_or_assign whenever it is set (one KeyValue per (ns, key))', 1)
   ctx.rule('R11', 'the sequence of intermediate measurements is converted element by element in its stored order (no sort / reverse / set / slice)', 2)
   ctx.rule('R10', 'a to_proto that starts from the remembered proto clears every repeated field before it re-populates it '
@@ -264,8 +264,8 @@ def r12_no_element_skipped(ctx, mi) -> None:
                   f'an element of `{unparse(lp.iter, 30)}` can be skipped depending on its own fields: what is received is not what was sent '
                   '(e.g. "keep running" decisions, or metrics with non-finite values, never arrive)', construct=f'{ci.name}.{m.name}:element-skipped',
                   func=m.qualname)
-  if n < 5:
-    raise AnalysisError(f'only {n} element-wise emitting loops found in the converters')
+  if n < 1:
+    raise AnalysisError('no element-wise emitting loop found in the converters')
 
 
 def r13_endpoint_assign(ctx) -> None:
